@@ -19,6 +19,7 @@ MUTATORS = {'add', 'append', 'update'}
 # methods that change an *external* object held in a local: `bits.invert(0)` becomes `bits = <.invert!>(bits, 0)`, the
 # external returning the object after the change
 EXT_MUTATORS = {'invert'}
+MODULES = ('re', 'collections', 'copy', 'os', 'json', 'itertools', 'logging', 'exceptions', 'isodate', 'decimal', 'datetime')
 BINOPS = {ast.Add: '+', ast.Sub: '-', ast.Mult: '*', ast.Div: '/', ast.Mod: '%'}
 CMPOPS = {ast.Eq: '==', ast.NotEq: '!=', ast.Lt: '<', ast.LtE: '<=', ast.Gt: '>', ast.GtE: '>=',
           ast.Is: 'is', ast.IsNot: 'isnot', ast.In: 'in', ast.NotIn: 'notin'}
@@ -82,6 +83,7 @@ FUNCTIONS = [
     ('sort_process', 'dataflows.processors.sort_rows', ['_sorter', 'process'], ['key_calc']),
     # extended JSON: the encoder's dispatch on the type of a value
     ('ejson_default', 'dataflows.helpers.extended_json', ['CommonJSONEncoder', 'default'], ['TIME_F_FORMAT', 'DATETIME_F_FORMAT', 'DATE_F_FORMAT']),
+    ('ejson_hook', 'dataflows.helpers.extended_json', ['CommonJSONDecoder', 'object_hook'], ['TIME_P_FORMAT', 'DATETIME_P_FORMAT', 'DATE_P_FORMAT']),
     # the exception funnel of the driver
     ('raise_exception', 'dataflows.base.datastream_processor', ['DataStreamProcessor', 'raise_exception'], ['self.__class__', 'self.position']),
     ('default_process_resource', 'dataflows.base.datastream_processor', ['DataStreamProcessor', 'process_resource']),
@@ -255,7 +257,7 @@ class Tr:
                 name = f.id
             elif isinstance(f, ast.Attribute) and isinstance(f.value, ast.Name) and f.value.id in ('collections', 'copy'):
                 name = f.attr if BCTOR.get(f.attr) is None else None
-            elif isinstance(f, ast.Attribute) and isinstance(f.value, ast.Name) and f.value.id in ('exceptions', 'logging'):
+            elif isinstance(f, ast.Attribute) and isinstance(f.value, ast.Name) and f.value.id in ('exceptions', 'logging', 'datetime', 'decimal', 'isodate'):
                 name = '%s.%s' % (f.value.id, f.attr)
             elif isinstance(f, ast.Attribute) and BCTOR.get('.' + f.attr) is None:
                 return self.call('.' + f.attr, [self.e(f.value)] + args + kwargs)
@@ -282,12 +284,12 @@ class Tr:
                 return out
             return self.call(f.id, args)
         if isinstance(f, ast.Attribute):
-            if isinstance(f.value, ast.Name) and f.value.id in ('re', 'collections', 'copy', 'os', 'json', 'itertools', 'logging', 'exceptions', 'isodate', 'decimal', 'datetime'):
+            if isinstance(f.value, ast.Name) and f.value.id in MODULES:
                 mod = f.value.id
                 name = {'collections': f.attr, 'copy': f.attr}.get(mod, '%s.%s' % (mod, f.attr))
                 return self.call(name, args)
-            if isinstance(f.value, ast.Attribute) and isinstance(f.value.value, ast.Name) and f.value.value.id == 'os':
-                return self.call('os.%s.%s' % (f.value.attr, f.attr), args)
+            if isinstance(f.value, ast.Attribute) and isinstance(f.value.value, ast.Name) and f.value.value.id in MODULES:
+                return self.call('%s.%s.%s' % (f.value.value.id, f.value.attr, f.attr), args)
             return self.call('.' + f.attr, [self.e(f.value)] + args)
         if isinstance(f, ast.Call):
             # the result of a call is called: `wrapper(link)(ds)` = apply(wrapper(link), ds)
@@ -336,6 +338,8 @@ class Tr:
                 return '(.assign %s %s)' % (lean_str(nm), self.e(n.value))
             if isinstance(t, ast.Subscript) and self.name_of(t.value) is not None and not isinstance(t.slice, ast.Slice):
                 return '(.mut %s "setitem" %s)' % (lean_str(self.name_of(t.value)), self.args([self.e(t.slice), self.e(n.value)]))
+            if isinstance(t, ast.Tuple) and all(isinstance(x, ast.Name) for x in t.elts):
+                return '(.unpack [%s] %s)' % (', '.join(lean_str(x.id) for x in t.elts), self.e(n.value))
             return self.sunsup('assignment target %s' % type(t).__name__)
         if isinstance(n, ast.AnnAssign):
             if n.value is None:
